@@ -542,8 +542,12 @@ def impl_pvalue(method, requested, total, max_num, stats, observed):
 def check_grid_point(ck, rng, method, b, m, mt, mode, collect=None):
     """mode: 'sampled' (requested = m, total given), 'enum' (requested > m = max_num, total None -> m_t = m)
     or 'default' (requested = m, total None, m_t = min(max_num, 10^6) with max_num = mt)."""
-    observed = 0.5
-    vals = [0.5] * (b // 2) + [0.75] * (b - b // 2) + [0.25] * (m - b)  # ties count as extreme
+    # ties count as extreme; values a hair BELOW the observed one do not (1e-9 relative: far above rounding, inside
+    # np.isclose's default tolerance); every third point uses statistics of magnitude 1e-9 (below isclose's atol)
+    scale = 1e-9 if (b + m + mt) % 3 == 0 else 1.0
+    observed = 0.5 * scale
+    below = [0.25 * scale, observed * (1 - 1e-9), observed * (1 - 3e-7)]
+    vals = [observed] * (b // 2) + [0.75 * scale] * (b - b // 2) + [below[i % 3] for i in range(m - b)]
     rng.shuffle(vals)
     if mode == "sampled":
         requested, total, max_num = m, mt, 10**9
@@ -711,7 +715,7 @@ def run(ck: Check):
 
     # ---- C
     ck.rule(
-        "C: (b, m, m_t) grid up to m = 40, m_t = 60 (all of b in {0,1,m/2,m-1,m} x m in {1,2,3,5,16,40} x m_t in {2,3,60}, plus random points; ties with the observed "
+        "C: null statistics a relative 1e-9 below the observed one (not extreme) and statistics of magnitude 1e-9; m_t in {150000, 250001, 362880} for exact/auto; (b, m, m_t) grid up to m = 40, m_t = 60 (all of b in {0,1,m/2,m-1,m} x m in {1,2,3,5,16,40} x m_t in {2,3,60}, plus random points; ties with the observed "
         "statistic count as extreme) x 5 methods x modes sampled / enumeration (requested > m) / default m_t, through _calculate_p_value with `permutation` replaced; "
         "oracle = exact rational formulas; the model is evaluated over Q by vm_compute and must agree with the code (1e-8) and with the rational oracle (exactly)"
     )
@@ -726,6 +730,12 @@ def run(ck: Check):
             check_grid_point(ck, rng, rng.choice(["conservative", "conservative", "exact", "approximate"]), b, m, mt, "enum", collect=grid if m <= 20 else None)
         if rng.random() < 0.2:
             check_grid_point(ck, rng, rng.choice(["auto", "exact", "approximate"]), b, m, mt, "default", collect=grid if m * mt <= 600 else None)
+    # total numbers of permutations beyond any chunk / buffer size an implementation might use (9! = 362 880 is the
+    # enumeration count of a pooled sample of 9; 10^6 is the default cap); formula in floating point, no Coq run
+    for b, m, mt in ([(27, 30, 362880), (3, 10, 150000), (0, 5, 250001)] if not thorough else [(27, 30, 362880), (3, 10, 150000), (0, 5, 250001), (10, 20, 1000000), (5, 12, 100001), (2, 8, 199999)]):
+        for method in ("exact", "auto"):
+            check_grid_point(ck, rng, method, b, m, mt, "sampled")
+        check_grid_point(ck, rng, "exact", b, m, mt, "default")
     corr_grid(ck, grid)
 
     # ---- D
